@@ -32,7 +32,7 @@ ASSUMPTIONS = ["per-target expectation = the library's own root merge of indepen
 REACH = [("yamlpath/merger/merger.py", "_insert_dict,_insert_list,_insert_set,_insert_scalar,_get_merge_target_nodes,merge_with,_replace_merge_target", "Merger._insert_* / _get_merge_target_nodes / merge_with"),
          ("yamlpath/merger/mergerconfig.py", "get_insertion_point", "MergerConfig.get_insertion_point")]
 SIZES = {"quick": 30000, "thorough": 800000}
-REQUIRED_COUNTERS = ["create_under_several_parents_cases", "empty_lhs_cases", "rule_at_merge_point_cases", "target_sharing_checked", "merge_key_target_cases", "retyped_equal_rhs_cases", "cli_uncreatable_cases", "traversal_mergeat_cases", "existing_single", "existing_multiple", "created", "uncreatable"]
+REQUIRED_COUNTERS = ["created_keys_with_separator_characters", "create_under_several_parents_cases", "empty_lhs_cases", "rule_at_merge_point_cases", "target_sharing_checked", "merge_key_target_cases", "retyped_equal_rhs_cases", "cli_uncreatable_cases", "traversal_mergeat_cases", "existing_single", "existing_multiple", "created", "uncreatable"]
 SAMPLE = [("deep", "all", "all", "unique"), ("deep", "unique", "deep", "unique"), ("right", "right", "right", "right"),
           ("left", "left", "left", "left"), ("deep", "right", "unique", "left"), ("right", "all", "deep", "unique")]
 
@@ -495,7 +495,10 @@ def run_shard(ctx):
         elif x < 0.85:
             bases = [[]] + [s for s, nd in sp if isinstance(nd, dict) and all(t == "KEY" for t, _ in s)][:6]
             base = rng.choice(bases)
-            tail = [("KEY", k) for k in rng.sample(["new1", "new2", "zz"], rng.randrange(1, 3))]
+            # (also new keys that hold a separator character: the created node's own path must name THAT key)
+            tail = [("KEY", k) for k in rng.sample(["new1", "new2", "zz", "n.w", "p/q", "a.b"], rng.randrange(1, 3))]
+            if any(c in k for _t, k in tail for c in "./"):
+                ctx.count("created_keys_with_separator_characters")
             run_case(ctx, ltext, rtext, list(base) + tail, "create", combo)
         else:
             scal = [s for s, nd in sp if not yp.is_container(nd) and nd is not None and all(t == "KEY" for t, _ in s)]
